@@ -105,10 +105,12 @@ class Ctx:
         self.gen_status: dict = {}
         self.assumptions: list[str] = []
         self.contracts: dict = {}
+        self.source_drift: list[str] = []      # anchored functions whose text differs from the fingerprinted baseline
+        self.escalated = False                 # quick tier run with the thorough case counts (source drift)
 
     @property
     def thorough(self) -> bool:
-        return self.tier == "thorough"
+        return self.tier == "thorough" or self.escalated
 
     def scale(self, quick: int, thorough: int) -> int:
         return thorough if self.thorough else quick
